@@ -3,7 +3,7 @@ from vlib.core import Query
 META = {
     "bounds": "3-word stream, every bit offset 0..3W-1 (covers every offset mod word size, both the single-word and the split path, "
               "and ranges ending exactly at the end of the object), every width 1..W, every value, every prior content; word types "
-              "uint64_t (default) and the documented uint32_t/uint32_t configuration; both NDEBUG settings",
+              "uint64_t (default), the documented uint32_t/uint32_t configuration, and uint16_t / uint8_t words; both NDEBUG settings",
     "outside": "streams longer than 3 words (the code addresses words only through offset/W and offset%W); word types other than the two documented",
     "assumptions": ["bit k of the stream is bit (W-1 - k%W) of word k/W (docs/modules/varintBitstream.md 'high-to-low')"],
 }
@@ -24,6 +24,10 @@ def queries(tier):
             qs.append(Query("set-get-u64-unsplit" + sfx, "bits/bitstream.c", [], ndebug=nd, checks="all", unwind=66, timeout=1800))
             qs.append(Query("set-get-u32-unsplit" + sfx, "bits/bitstream.c", [], defs={"VBITS": "uint32_t", "VBITSVAL": "uint32_t"},
                             ndebug=nd, checks="all", unwind=66, timeout=1800))
+        # narrower word types (the header is "configurable"; uint16_t / uint8_t words with the matching value type)
+        for wt, tag in (("uint16_t", "u16"), ("uint8_t", "u8")):
+            qs.append(Query("set-get-%s%s" % (tag, sfx), "bits/bitstream.c", [], defs={"VBITS": wt, "VBITSVAL": wt}, ndebug=nd, checks="all",
+                            unwind=66, timeout=900))
         qs.append(Query("signed-u64" + sfx, "bits/bitstream_signed.c", [], ndebug=nd, checks="all", timeout=900))
         qs.append(Query("signed-u32" + sfx, "bits/bitstream_signed.c", [], defs={"VBITS": "uint32_t", "VBITSVAL": "uint32_t", "WORD32": 1},
                         ndebug=nd, checks="all", timeout=900))
